@@ -126,8 +126,8 @@ func (b *Builder) Signed(pk []byte) bool {
 func (b *Builder) SpendSigned(tx *wire.Tx, idx int, spent []wire.TxOut, valid bool) bool {
 	pk := spent[idx].PkScript
 	r := b.Recipes[string(pk)]
-	if r == nil {
-		return false
+	if r == nil || !b.Signed(pk) {
+		return false // (not a key-based script: whatever Spend put into the input stays)
 	}
 	in := &tx.In[idx]
 	in.ScriptSig, in.Witness = nil, nil
@@ -262,6 +262,29 @@ func (b *Builder) Spend(tx *wire.Tx, idx int, pk []byte, valid bool) (ok bool) {
 		}
 		return false
 	}
+	if r.Kind == "p2sh" && r.In != nil && r.In.Kind == "p2wsh" {
+		// P2SH-wrapped P2WSH: the input script is the single push of the witness program, the witness carries the
+		// stack for the inner script and the inner script
+		w := r.In
+		if w.In == nil || !valid && !breakable(w.In) {
+			return false
+		}
+		in := &tx.In[idx]
+		in.ScriptSig, in.Witness = Push(r.Inner), nil
+		switch w.In.Kind {
+		case "true":
+		case "puzzle":
+			n := w.In.N
+			if !valid {
+				n++
+			}
+			in.Witness = append(in.Witness, ScriptNum(n))
+		default:
+			return false
+		}
+		in.Witness = append(in.Witness, w.Inner)
+		return true
+	}
 	if !valid && !breakable(r) {
 		return false
 	}
@@ -329,6 +352,9 @@ func (b *Builder) Spendable(pk []byte) bool {
 	case "true", "puzzle", "p2pkh", "p2wpkh", "p2sh-p2wpkh", "p2tr":
 		return true
 	case "p2sh", "p2wsh":
+		if r.Kind == "p2sh" && r.In != nil && r.In.Kind == "p2wsh" {
+			r = r.In
+		}
 		return r.In != nil && (r.In.Kind == "true" || r.In.Kind == "puzzle")
 	}
 	return false
@@ -343,6 +369,8 @@ func (b *Builder) NeedsWitness(pk []byte) (segwit, taproot bool) {
 	switch r.Kind {
 	case "p2wsh", "p2wpkh", "p2sh-p2wpkh":
 		return true, false
+	case "p2sh":
+		return r.In != nil && r.In.Kind == "p2wsh", false
 	case "p2tr":
 		return true, true
 	}
@@ -357,6 +385,9 @@ func (b *Builder) Breakable(pk []byte) bool {
 	}
 	if r.Kind == "puzzle" || b.Signed(pk) {
 		return true
+	}
+	if r.Kind == "p2sh" && r.In != nil && r.In.Kind == "p2wsh" {
+		r = r.In
 	}
 	return (r.Kind == "p2sh" || r.Kind == "p2wsh") && r.In != nil && r.In.Kind == "puzzle"
 }
